@@ -5,7 +5,7 @@ import vlib
 PROP_FILES = ['Properties/C02']
 EXTRA_OBLIGATION_FILES = ['Proofs/AtomMux']
 TRUSTED = [
-    'atomic steps of the hand-written model as GENERATED obligations (Proofs/AtomMux.v, re-proved on every run about coq/Gen/Atomicity.v; in a private re-generated copy under VERIF_EXTRA_OVERLAY): tools/lockscan (go/ast, syntactic types) is trusted to list, per function of internal/{server,multiplex,common,client}, every field access / call / sync/atomic operation with the critical sections (Lock..Unlock / RLock..RUnlock / deferred unlock, mutex identity by name) it lies in, every sync.Pool.Put with the later mentions of the object, and every variable a go statement shares with its spawner (anything it cannot resolve is in atomicity_errors, which must be empty); it does not follow calls (a region is what one function writes between Lock and Unlock), does no alias analysis, treats callbacks as running with no lock held, and counts call sites, not executions (a loop around one call site is invisible)',
+    'atomic steps of the hand-written model as GENERATED obligations (Proofs/AtomMux.v, re-proved on every run about coq/Gen/Atomicity.v; in a private re-generated copy under VERIF_EXTRA_OVERLAY): tools/lockscan (go/ast, syntactic types) is trusted to list, per function of internal/{server,multiplex,common,client}, every field access / call / sync/atomic operation with the critical sections (Lock..Unlock / RLock..RUnlock / deferred unlock, mutex identity by name) it lies in, every sync.Pool.Put with the later mentions of the object, and every variable a go statement shares with its spawner (anything it cannot resolve is in atomicity_errors, which must be empty); it does not follow calls (a region is what one function writes between Lock and Unlock), does no alias analysis, treats callbacks as running with no lock held, and counts call sites, not executions (a loop around one call site is invisible); send-lock discipline (AtomMux: no mutex possibly held across the blocking conn.Write is acquired on the path from switchboard.deplex): the scanner supplies the in-package call graph over functions and their bool specialisations (interface receivers resolved to every in-package implementer; deferred calls, callbacks and function values count as calls, go statements do not; cross-package calls are not edges) and, per call, the locks possibly held - reachability to the conn.Write call and from deplex is computed inside Coq',
     'Coq 8.16.1 kernel incl. vm_compute (no native_compute); theorems C02_reassembly, C02_close_in_order, C02_wrap_guard: Closed under the global context',
     'hand-written model coq/Model/Reorder.v of streamBuffer.Write/Read/Close (container/heap modelled as pop-least-Seq on a sorted list; bytes.Buffer as a list)',
     'correspondence: in-package Go driver harness/multiplex/c02_test.go on the real streamBuffer vs extracted OCaml model (ExtrOcamlBasic only; N, nat kept as datatypes), ocaml/c02_driver.ml',
